@@ -1,1 +1,1113 @@
 // Kani harnesses compiled inside rs-matter/src/transport/network/btp/session.rs (module `verif_kani`).
+
+mod c18 {
+    use super::*;
+
+    const RN: usize = MAX_MESSAGE_SIZE;
+    /// Smallest BTP segment size a handshake may negotiate (ATT_MTU 23 - 3).
+    const MIN_SEG: u16 = MIN_MTU - GATT_HEADER_SIZE as u16;
+    const MAX_SEG: u16 = MAX_MTU - GATT_HEADER_SIZE as u16;
+
+    fn fake_now() -> Instant {
+        Instant::from_ticks(kani::any())
+    }
+
+    /// Logging is off in the verified configuration (no logger installed => `log::max_level()` is Off);
+    /// stubbed so that CBMC does not explore the formatting machinery behind `debug!`/`warn!`.
+    fn log_off() -> ::log::LevelFilter {
+        ::log::LevelFilter::Off
+    }
+
+    fn any_instant() -> Instant {
+        Instant::from_ticks(kani::any())
+    }
+
+    // ---------------------------------------------------------------------------------------
+    // Send window
+    // ---------------------------------------------------------------------------------------
+
+    fn any_send() -> SendWindow {
+        SendWindow { window_size: kani::any(), level: kani::any(), last_sent_seq_num: kani::any(), sent_at: any_instant() }
+    }
+
+    /// How many sequence numbers `ack` lies behind `last_sent` (mod 256).
+    fn behind(last_sent: u8, ack: u8) -> u8 {
+        last_sent.wrapping_sub(ack)
+    }
+
+    /// An acknowledgement is acceptable iff it names a segment that is in flight or the one just
+    /// before the oldest in flight (a repeated ack); anything further behind was never sent / is not
+    /// outstanding (DESIGN C18: "more than window_size - level behind last_sent").
+    fn ack_ok(w: &SendWindow, ack: Option<u8>) -> bool {
+        match ack {
+            None => true,
+            Some(a) => behind(w.last_sent_seq_num, a) <= w.window_size - w.level,
+        }
+    }
+
+    /// Any header that can come off the wire (decoder contract: c18_hdr_decode_total).
+    fn any_wire_hdr() -> BtpHdr {
+        let bytes: [u8; 8] = kani::any();
+        match BtpHdr::from(bytes.iter().copied()) {
+            Ok(h) => h,
+            Err(_) => {
+                kani::assume(false);
+                BtpHdr::new()
+            }
+        }
+    }
+
+    fn check_send_accept(bogus: bool) {
+        let mut w = any_send();
+        kani::assume(w.level <= w.window_size);
+        let h = any_wire_hdr();
+        let ack = h.get_ack();
+        kani::assume(ack_ok(&w, ack) != bogus);
+        let (ws, lvl, last, at) = (w.window_size, w.level, w.last_sent_seq_num, w.sent_at);
+
+        w.accept_incoming(&h);
+
+        kani::assert(w.window_size == ws && w.last_sent_seq_num == last, "C18.send_window.ack_keeps_size_and_seq");
+        if bogus {
+            // must not be able to move the window (the session must refuse the segment, see c18_d3_rx_bogus_ack)
+            kani::assert(w.level == lvl, "C18.send_window.bogus_ack_never_changes_level");
+        } else {
+            match ack {
+                None => kani::assert(w.level == lvl && w.sent_at == at, "C18.send_window.no_ack_changes_nothing"),
+                Some(a) => {
+                    let d = behind(last, a);
+                    kani::assert(w.level == ws - d, "C18.send_window.ack_frees_exactly_the_acknowledged");
+                    kani::assert(w.level >= lvl && w.level <= ws, "C18.send_window.level_only_grows_within_window");
+                    kani::assert(d != 0 || (w.level == ws && w.sent_at == Instant::MAX), "C18.send_window.all_acked_disarms_idle_timer");
+                }
+            }
+        }
+        kani::cover!(bogus || (ack.is_some() && w.level > lvl), "ack frees slots");
+        kani::cover!(bogus || (ack.is_some() && w.level == lvl), "ack frees nothing");
+        kani::cover!(bogus || (ack.is_some() && last < 3 && ack.unwrap() > 250), "ack across the 8-bit wrap");
+        kani::cover!(bogus || ack.is_none(), "no ack");
+        kani::cover!(!bogus || ack.is_some(), "bogus ack");
+    }
+
+    // TIER: quick
+    // KIND: complete
+    #[kani::proof]
+    #[kani::stub(embassy_time::Instant::now, fake_now)]
+    #[kani::stub(log::max_level, log_off)]
+    fn c18_send_accept_ack() {
+        check_send_accept(false);
+    }
+
+    /// EXPECTED TO FAIL (candidate defect D3, session.rs:114): an acknowledgement of something never
+    /// sent underflows `window_size - unacknowledged` or silently shrinks the window.
+    // TIER: quick
+    // KIND: complete
+    #[kani::proof]
+    #[kani::stub(embassy_time::Instant::now, fake_now)]
+    #[kani::stub(log::max_level, log_off)]
+    fn c18_d3_send_accept_bogus_ack() {
+        check_send_accept(true);
+    }
+
+    // TIER: quick
+    // KIND: complete
+    #[kani::proof]
+    #[kani::stub(embassy_time::Instant::now, fake_now)]
+    #[kani::stub(log::max_level, log_off)]
+    fn c18_send_post_send() {
+        let mut w = any_send();
+        kani::assume(w.level <= w.window_size);
+        let any_recv_ack_level: u8 = kani::any();
+        // caller contract (prep_tx_data): only when not full
+        let full = w.level == 0;
+        kani::assume(!full);
+        let (ws, lvl, last) = (w.window_size, w.level, w.last_sent_seq_num);
+        let next = w.next_seq_num();
+        w.post_send();
+        kani::assert(next == last.wrapping_add(1), "C18.send_window.next_seq_is_last_plus_1_mod_256");
+        kani::assert(w.last_sent_seq_num == next, "C18.send_window.post_send_records_seq");
+        kani::assert(w.level == lvl - 1 && w.window_size == ws, "C18.send_window.post_send_takes_one_slot");
+        kani::assert(w.level <= w.window_size, "C18.send_window.post_send_keeps_invariant");
+        let _ = any_recv_ack_level;
+        kani::cover!(last == 255, "sequence wrap");
+    }
+
+    // ---------------------------------------------------------------------------------------
+    // Session states
+    // ---------------------------------------------------------------------------------------
+
+    struct Ghost {
+        b: [usize; 256],
+    }
+
+    /// Arbitrary session field values. The receive ring is represented by the abstract FIFO model
+    /// (`RingBuf::c18_model_init`): an arbitrary view of arbitrary length 0..=RN; the `RingBuf` value
+    /// inside the session is a placeholder that the stubbed push/pop/len/clear never touch.
+    fn any_session() -> Session {
+        RingBuf::<RN>::c18_model_init(kani::any());
+        Session {
+            initiator: kani::any(),
+            address: BtAddr(kani::any()),
+            version: kani::any(),
+            mtu: kani::any(),
+            window_size: kani::any(),
+            handshake_pending: kani::any(),
+            recv_window: RecvWindow {
+                buf: RingBuf::<RN>::new(),
+                buf_messages_ct: kani::any(),
+                level: kani::any(),
+                ack_level: kani::any(),
+                ack_seq: kani::any(),
+                received_at: any_instant(),
+                rem_msg_len: kani::any(),
+            },
+            send_window: any_send(),
+            relaxed_mtu_nego: kani::any(),
+        }
+    }
+
+    fn rd16(r: &RingBuf<RN>, i: usize) -> usize {
+        r.c18_mat(i) as usize | ((r.c18_mat(i + 1) as usize) << 8)
+    }
+
+    fn wf_counters(s: &Session) -> bool {
+        let r = &s.recv_window;
+        let w = &s.send_window;
+        w.window_size == s.window_size
+            && w.level <= w.window_size
+            && r.level as u16 + r.ack_level as u16 <= s.window_size as u16
+            && r.buf_messages_ct <= r.ack_level
+    }
+
+    /// Universal fact "boundaries are monotonic", instantiated at the pair (j, k).
+    fn mono(g: &Ghost, j: usize, k: usize, ct: usize) -> bool {
+        !(j <= k && k <= ct) || g.b[j] <= g.b[k]
+    }
+
+    /// Universal fact "record k is `len16 ‖ sdu` with |sdu| = len16 >= 1 and lies inside the completed prefix", instantiated at k.
+    fn rec_ok(ring: &RingBuf<RN>, g: &Ghost, k: usize, ct: usize) -> bool {
+        if k >= ct {
+            return true;
+        }
+        let (lo, hi, p) = (g.b[k], g.b[k + 1], g.b[ct]);
+        hi <= p && lo <= hi && hi - lo >= 3 && rd16(ring, lo) == hi - lo - 2
+    }
+
+    /// Ring + parse part of WF that is not quantified over records.
+    fn wf_base(s: &Session, g: &Ghost) -> bool {
+        let r = &s.recv_window;
+        let ring = &r.buf;
+        let len = ring.c18_mlen();
+        let ct = r.buf_messages_ct as usize;
+        let p = g.b[ct];
+        if !(g.b[0] == 0 && p <= len) {
+            return false;
+        }
+        if r.rem_msg_len == 0 {
+            p == len
+        } else {
+            len >= p + 2 && {
+                let l = rd16(ring, p);
+                let got = len - p - 2;
+                got < l && l - got == r.rem_msg_len as usize
+            }
+        }
+    }
+
+    /// WF of the buffer, the record-quantified facts instantiated at records j <= k.
+    fn wf_buf(s: &Session, g: &Ghost, j: usize, k: usize) -> bool {
+        let ct = s.recv_window.buf_messages_ct as usize;
+        wf_base(s, g)
+            && mono(g, j, k, ct)
+            && mono(g, j, ct, ct)
+            && mono(g, k, ct, ct)
+            && rec_ok(&s.recv_window.buf, g, j, ct)
+            && rec_ok(&s.recv_window.buf, g, k, ct)
+    }
+
+    struct Snap {
+        initiator: bool,
+        address: BtAddr,
+        version: u8,
+        mtu: u16,
+        window_size: u8,
+        handshake_pending: bool,
+        relaxed: bool,
+        ct: u8,
+        rlevel: u8,
+        ack_level: u8,
+        ack_seq: u8,
+        rem: u16,
+        len: usize,
+        sws: u8,
+        slevel: u8,
+        last: u8,
+        sent_at: Instant,
+    }
+
+    fn snap(s: &Session) -> Snap {
+        Snap {
+            initiator: s.initiator,
+            address: s.address,
+            version: s.version,
+            mtu: s.mtu,
+            window_size: s.window_size,
+            handshake_pending: s.handshake_pending,
+            relaxed: s.relaxed_mtu_nego,
+            ct: s.recv_window.buf_messages_ct,
+            rlevel: s.recv_window.level,
+            ack_level: s.recv_window.ack_level,
+            ack_seq: s.recv_window.ack_seq,
+            rem: s.recv_window.rem_msg_len,
+            len: s.recv_window.buf.c18_mlen(),
+            sws: s.send_window.window_size,
+            slevel: s.send_window.level,
+            last: s.send_window.last_sent_seq_num,
+            sent_at: s.send_window.sent_at,
+        }
+    }
+
+    /// (array `==` goes through a memcmp loop; compare bytes explicitly)
+    fn addr_eq(a: &BtAddr, b: &BtAddr) -> bool {
+        a.0[0] == b.0[0] && a.0[1] == b.0[1] && a.0[2] == b.0[2] && a.0[3] == b.0[3] && a.0[4] == b.0[4] && a.0[5] == b.0[5]
+    }
+
+    fn session_params_unchanged(s: &Session, o: &Snap) -> bool {
+        s.initiator == o.initiator
+            && addr_eq(&s.address, &o.address)
+            && s.version == o.version
+            && s.mtu == o.mtu
+            && s.window_size == o.window_size
+            && s.handshake_pending == o.handshake_pending
+            && s.relaxed_mtu_nego == o.relaxed
+    }
+
+    fn send_unchanged(s: &Session, o: &Snap) -> bool {
+        s.send_window.window_size == o.sws && s.send_window.level == o.slevel && s.send_window.last_sent_seq_num == o.last && s.send_window.sent_at == o.sent_at
+    }
+
+    fn recv_counters_unchanged(s: &Session, o: &Snap) -> bool {
+        s.recv_window.level == o.rlevel && s.recv_window.ack_level == o.ack_level && s.recv_window.ack_seq == o.ack_seq
+    }
+
+    // ---------------------------------------------------------------------------------------
+    // process_rx on data / ack segments (first byte without the HANDSHAKE flag)
+    // ---------------------------------------------------------------------------------------
+
+    /// Longest received segment explored (bytes). GATT caps an attribute value at 512 bytes.
+    const SEG: usize = 12;
+
+    #[derive(PartialEq, Clone, Copy)]
+    enum RxCase {
+        /// everything not in one of the cases below
+        Main,
+        /// receive window exhausted (level 0): the statement demands a refusal  [D3, :245/:248]
+        Overrun,
+        /// acknowledgement of something never sent: refusal demanded            [D3, :114]
+        BogusAck,
+        /// BEGINNING segment while an SDU is still incomplete, or a non-final segment that
+        /// already completes the announced length: inconsistent flags/length, refusal demanded [D12]
+        BadFraming,
+        /// first segment of an SDU longer than one segment's payload but not longer than the
+        /// segment size: a legitimate segment (our own sender emits it) that must be accepted [D13]
+        ShortSdu,
+    }
+
+    fn check_rx_data(case: RxCase) {
+        let mut s = any_session();
+        let g = Ghost { b: kani::any() };
+        let jr: usize = kani::any();
+        let k: usize = kani::any();
+        // (nothing shifts on receive: one record instance suffices)
+        kani::assume(jr == k && k < 255);
+        kani::assume(wf_counters(&s) && wf_buf(&s, &g, jr, k));
+
+        let bytes: [u8; SEG] = kani::any();
+        let n: usize = kani::any();
+        kani::assume(n <= SEG);
+        kani::assume(n == 0 || bytes[0] & 0x40 == 0);
+        let gatt_mtu: Option<u16> = kani::any();
+        let addr = BtAddr(kani::any());
+
+        // what the segment says (decoder contract proven in c18_hdr_decode_total)
+        let mut it = bytes[..n].iter();
+        let hdr = BtpHdr::from((&mut it).copied());
+        let hl = n - it.as_slice().len();
+        let pl = n - hl;
+
+        let o = snap(&s);
+        let ct = o.ct as usize;
+        let p = g.b[ct];
+        let mtu = o.mtu as usize;
+
+        // classification of the segment, from the statement
+        let (seq, ack, ml, cont, fin, mgmt) = match &hdr {
+            Ok(h) => (h.get_seq(), h.get_ack(), h.get_msg_len(), h.is_continue(), h.is_final(), h.get_opcode().is_some()),
+            Err(_) => (None, None, None, false, false, false),
+        };
+        let begin = ml.is_some();
+        let announced = match ml {
+            Some(l) => l as usize,
+            None => o.rem as usize,
+        };
+        let standalone_ack = !begin && !cont && !fin && ack.is_some();
+        let well_formed = hdr.is_ok()
+            && !mgmt
+            && seq == Some(o.ack_seq.wrapping_add(1))
+            && (if standalone_ack { pl == 0 } else { (begin || cont || fin) && !(begin && cont) })
+            && (fin || standalone_ack || n == mtu)
+            && pl <= announced
+            && (!fin || pl == announced);
+        let hdr_add = if begin && announced > 0 { 2 } else { 0 };
+        let room = RN - o.len >= hdr_add + pl;
+
+        let overrun = o.rlevel == 0;
+        let bogus_ack = !ack_ok(&s.send_window, ack);
+        let bad_framing = (begin && o.rem > 0) || (!fin && pl > 0 && pl == announced);
+        let short_sdu = begin && !fin && announced <= mtu;
+        match case {
+            RxCase::Overrun => kani::assume(overrun),
+            RxCase::BogusAck => kani::assume(!overrun && bogus_ack),
+            RxCase::BadFraming => kani::assume(!overrun && !bogus_ack && bad_framing),
+            RxCase::ShortSdu => kani::assume(!overrun && !bogus_ack && !bad_framing && short_sdu),
+            RxCase::Main => kani::assume(!overrun && !bogus_ack && !bad_framing && !short_sdu),
+        }
+
+        // witnesses for "for all i": one arbitrary old byte, remembered
+        let i: usize = kani::any();
+        let has_i = i < o.len;
+        let old_i = if has_i { s.recv_window.buf.c18_mat(i) } else { 0 };
+
+        let r = s.process_rx(gatt_mtu, addr, &bytes[..n]);
+
+        kani::assert(session_params_unchanged(&s, &o), "C18.rx.data_segment_keeps_session_parameters");
+        let rw = &s.recv_window;
+        let nlen = rw.buf.c18_mlen();
+
+        match case {
+            RxCase::Overrun => kani::assert(r.is_err(), "C18.rx.window_overrun_refused"),
+            RxCase::BogusAck => kani::assert(r.is_err(), "C18.rx.bogus_ack_refused"),
+            RxCase::BadFraming => kani::assert(r.is_err(), "C18.rx.inconsistent_framing_refused"),
+            RxCase::ShortSdu => kani::assert(r.is_ok() == (well_formed && room), "C18.rx.sender_first_segment_accepted"),
+            RxCase::Main => {
+                kani::assert(!r.is_ok() || well_formed, "C18.rx.ok_only_for_well_formed_segment");
+                kani::assert(!(well_formed && room) || r.is_ok(), "C18.rx.well_formed_segment_with_room_accepted");
+            }
+        }
+
+        if r.is_ok() {
+            // window accounting
+            kani::assert(Some(rw.level) == o.rlevel.checked_sub(1) && Some(rw.ack_level) == o.ack_level.checked_add(1), "C18.rx.ok_takes_one_recv_slot");
+            kani::assert(Some(rw.ack_seq) == seq && rw.ack_seq == o.ack_seq.wrapping_add(1), "C18.rx.ok_seq_is_consecutive");
+            match ack {
+                None => kani::assert(send_unchanged(&s, &o), "C18.rx.no_ack_keeps_send_window"),
+                Some(a) => kani::assert(
+                    s.send_window.window_size == o.sws
+                        && s.send_window.last_sent_seq_num == o.last
+                        && Some(s.send_window.level) == o.sws.checked_sub(behind(o.last, a))
+                        && s.send_window.level >= o.slevel,
+                    "C18.rx.ack_frees_send_slots"
+                ),
+            }
+            // the view grows by exactly [length prefix] ++ payload
+            kani::assert(nlen == o.len + hdr_add + pl, "C18.rx.ok_view_grows_by_prefix_and_payload");
+            kani::assert(!has_i || rw.buf.c18_mat(i) == old_i, "C18.rx.ok_keeps_old_view");
+            if hdr_add == 2 {
+                kani::assert(rd16(&rw.buf, o.len) == announced, "C18.rx.ok_length_prefix");
+            }
+            let j: usize = kani::any();
+            if j < pl {
+                kani::assert(rw.buf.c18_mat(o.len + hdr_add + j) == bytes[hl + j], "C18.rx.ok_appends_payload_bytes");
+            }
+            // SDU bookkeeping
+            kani::assert(Some(rw.rem_msg_len as usize) == announced.checked_sub(pl), "C18.rx.ok_remaining_length");
+            let completes = fin && pl > 0;
+            kani::assert(rw.buf_messages_ct as usize == ct + completes as usize, "C18.rx.ok_counts_completed_sdu");
+            // WF again (witness: the new record, if any, ends at the new end of the view)
+            let mut g2 = Ghost { b: g.b };
+            if completes && ct < 255 {
+                g2.b[ct + 1] = nlen;
+            }
+            kani::assert(wf_counters(&s), "C18.rx.ok_keeps_wf_counters");
+            kani::assert(wf_buf(&s, &g2, jr, k), "C18.rx.ok_keeps_wf_buffer");
+            // the newly completed record itself
+            kani::assert(!completes || (ct < 255 && wf_buf(&s, &g2, ct, ct)), "C18.rx.ok_completed_record_is_well_formed");
+        } else {
+            // a refused segment cannot corrupt delivered data, nor move the windows
+            kani::assert(rw.buf_messages_ct == o.ct, "C18.rx.err_keeps_completed_count");
+            kani::assert(nlen >= p && (!has_i || i >= p || rw.buf.c18_mat(i) == old_i), "C18.rx.err_keeps_completed_sdus");
+            kani::assert(recv_counters_unchanged(&s, &o) && send_unchanged(&s, &o), "C18.rx.err_keeps_window_accounting");
+        }
+
+        if case == RxCase::Main {
+            kani::cover!(r.is_ok() && begin && fin && pl > 0, "single-segment SDU accepted");
+            kani::cover!(r.is_ok() && begin && !fin, "first segment of a long SDU");
+            kani::cover!(r.is_ok() && !begin && cont && !fin, "middle segment");
+            kani::cover!(r.is_ok() && !begin && fin && pl > 0 && ct > 0, "last segment, queue not empty");
+            kani::cover!(r.is_ok() && standalone_ack, "stand-alone ack");
+            kani::cover!(r.is_ok() && ack.is_some() && s.send_window.level > o.slevel, "piggy-backed ack frees slots");
+            kani::cover!(r.is_ok() && begin && announced == 0, "zero-length SDU");
+            kani::cover!(r.is_ok() && o.ack_seq == 255, "sequence wrap");
+            kani::cover!(r.is_err() && well_formed, "no room in the ring");
+            kani::cover!(r.is_err() && hdr.is_ok() && seq != Some(o.ack_seq.wrapping_add(1)), "wrong sequence number");
+            kani::cover!(r.is_err() && hdr.is_err(), "truncated header");
+            kani::cover!(r.is_err() && begin && rw.buf.c18_mlen() != o.len, "refused after the prefix was pushed");
+            kani::cover!(r.is_ok() && k < ct, "record instance in range");
+        }
+    }
+
+    // TIER: quick
+    // KIND: bounded (received segment <= 12 bytes; all session states; ring = abstract FIFO model of capacity 3166)
+    #[kani::proof]
+    #[kani::unwind(14)]
+    #[kani::stub(embassy_time::Instant::now, fake_now)]
+    #[kani::stub(log::max_level, log_off)]
+    #[kani::stub(crate::utils::storage::RingBuf::push, crate::utils::storage::RingBuf::c18_push_log)]
+    #[kani::stub(crate::utils::storage::RingBuf::len, crate::utils::storage::RingBuf::c18_len_log)]
+    #[kani::stub(crate::utils::storage::RingBuf::pop, crate::utils::storage::RingBuf::c18_pop_model)]
+    #[kani::stub(crate::utils::storage::RingBuf::clear, crate::utils::storage::RingBuf::c18_clear_model)]
+    fn c18_rx_data_step() {
+        check_rx_data(RxCase::Main);
+    }
+
+    /// EXPECTED TO FAIL (D3, session.rs:245): segment arriving when the receive window is exhausted.
+    // TIER: quick
+    // KIND: bounded (received segment <= 12 bytes)
+    #[kani::proof]
+    #[kani::unwind(14)]
+    #[kani::stub(embassy_time::Instant::now, fake_now)]
+    #[kani::stub(log::max_level, log_off)]
+    #[kani::stub(crate::utils::storage::RingBuf::push, crate::utils::storage::RingBuf::c18_push_log)]
+    #[kani::stub(crate::utils::storage::RingBuf::len, crate::utils::storage::RingBuf::c18_len_log)]
+    #[kani::stub(crate::utils::storage::RingBuf::pop, crate::utils::storage::RingBuf::c18_pop_model)]
+    #[kani::stub(crate::utils::storage::RingBuf::clear, crate::utils::storage::RingBuf::c18_clear_model)]
+    fn c18_d3_rx_window_overrun() {
+        check_rx_data(RxCase::Overrun);
+    }
+
+    /// EXPECTED TO FAIL (D3, session.rs:114): acknowledgement of a segment never sent.
+    // TIER: quick
+    // KIND: bounded (received segment <= 12 bytes)
+    #[kani::proof]
+    #[kani::unwind(14)]
+    #[kani::stub(embassy_time::Instant::now, fake_now)]
+    #[kani::stub(log::max_level, log_off)]
+    #[kani::stub(crate::utils::storage::RingBuf::push, crate::utils::storage::RingBuf::c18_push_log)]
+    #[kani::stub(crate::utils::storage::RingBuf::len, crate::utils::storage::RingBuf::c18_len_log)]
+    #[kani::stub(crate::utils::storage::RingBuf::pop, crate::utils::storage::RingBuf::c18_pop_model)]
+    #[kani::stub(crate::utils::storage::RingBuf::clear, crate::utils::storage::RingBuf::c18_clear_model)]
+    fn c18_d3_rx_bogus_ack() {
+        check_rx_data(RxCase::BogusAck);
+    }
+
+    /// EXPECTED TO FAIL (new candidate D12): BEGINNING inside an SDU / length reached without ENDING.
+    // TIER: quick
+    // KIND: bounded (received segment <= 12 bytes)
+    #[kani::proof]
+    #[kani::unwind(14)]
+    #[kani::stub(embassy_time::Instant::now, fake_now)]
+    #[kani::stub(log::max_level, log_off)]
+    #[kani::stub(crate::utils::storage::RingBuf::push, crate::utils::storage::RingBuf::c18_push_log)]
+    #[kani::stub(crate::utils::storage::RingBuf::len, crate::utils::storage::RingBuf::c18_len_log)]
+    #[kani::stub(crate::utils::storage::RingBuf::pop, crate::utils::storage::RingBuf::c18_pop_model)]
+    #[kani::stub(crate::utils::storage::RingBuf::clear, crate::utils::storage::RingBuf::c18_clear_model)]
+    fn c18_d12_rx_bad_framing() {
+        check_rx_data(RxCase::BadFraming);
+    }
+
+    /// EXPECTED TO FAIL (new candidate D13): a correct first segment is refused when
+    /// payload-room < SDU length <= segment size.
+    // TIER: quick
+    // KIND: bounded (received segment <= 12 bytes)
+    #[kani::proof]
+    #[kani::unwind(14)]
+    #[kani::stub(embassy_time::Instant::now, fake_now)]
+    #[kani::stub(log::max_level, log_off)]
+    #[kani::stub(crate::utils::storage::RingBuf::push, crate::utils::storage::RingBuf::c18_push_log)]
+    #[kani::stub(crate::utils::storage::RingBuf::len, crate::utils::storage::RingBuf::c18_len_log)]
+    #[kani::stub(crate::utils::storage::RingBuf::pop, crate::utils::storage::RingBuf::c18_pop_model)]
+    #[kani::stub(crate::utils::storage::RingBuf::clear, crate::utils::storage::RingBuf::c18_clear_model)]
+    fn c18_d13_rx_short_sdu_first_segment() {
+        check_rx_data(RxCase::ShortSdu);
+    }
+
+    /// EXPECTED TO FAIL (D3, session.rs:245): the same window overrun at the level of
+    /// `RecvWindow::accept_incoming` alone (small and fast: used for the counterexample).
+    // TIER: quick
+    // KIND: bounded (payload <= 4 bytes)
+    #[kani::proof]
+    #[kani::unwind(6)]
+    #[kani::stub(embassy_time::Instant::now, fake_now)]
+    #[kani::stub(log::max_level, log_off)]
+    #[kani::stub(crate::utils::storage::RingBuf::push, crate::utils::storage::RingBuf::c18_push_log)]
+    #[kani::stub(crate::utils::storage::RingBuf::len, crate::utils::storage::RingBuf::c18_len_log)]
+    fn c18_d3_recv_accept_overrun_unit() {
+        RingBuf::<RN>::c18_model_init(0);
+        let mut w = RecvWindow {
+            buf: RingBuf::<RN>::new(),
+            buf_messages_ct: 0,
+            level: 0, // window exhausted
+            ack_level: kani::any(),
+            ack_seq: kani::any(),
+            received_at: any_instant(),
+            rem_msg_len: 0,
+        };
+        let h = any_wire_hdr();
+        let payload: [u8; 4] = kani::any();
+        let pl: usize = kani::any();
+        kani::assume(pl <= 4);
+        let mtu: u16 = kani::any();
+        let r = w.accept_incoming(&h, &payload[..pl], mtu);
+        kani::assert(r.is_err(), "C18.recv_window.overrun_refused");
+        kani::assert(w.level == 0, "C18.recv_window.level_never_underflows");
+    }
+
+    // ---------------------------------------------------------------------------------------
+    // prep_tx_data
+    // ---------------------------------------------------------------------------------------
+
+    const TXD: usize = 40;
+    const TXB: usize = 32;
+
+    fn check_tx_data(tiny_mtu: bool) {
+        let mut s = any_session();
+        kani::assume(wf_counters(&s));
+        // case split on our own negotiated segment size
+        kani::assume((s.mtu < MIN_SEG) == tiny_mtu);
+
+        let data: [u8; TXD] = kani::any();
+        let dn: usize = kani::any();
+        kani::assume(dn <= TXD);
+        let off0: usize = kani::any();
+        // caller contract (BtpInner::process_outgoing): offset inside the message; empty data = stand-alone ack,
+        // requested only when an acknowledgement is pending (is_ack_due)
+        kani::assume(if dn == 0 { off0 == 0 && s.recv_window.pending_ack().is_some() } else { off0 < dn });
+        let out0: [u8; TXB] = kani::any();
+        let mut out = out0;
+        let bl: usize = kani::any();
+        kani::assume(bl <= TXB);
+
+        let o = snap(&s);
+        let pending = if o.ack_level > 0 && o.ct == 0 { Some(o.ack_seq) } else { None };
+        let i: usize = kani::any();
+        let has_i = i < o.len;
+        let old_i = if has_i { s.recv_window.buf.c18_mat(i) } else { 0 };
+
+        let mut off = off0;
+        let r = s.prep_tx_data(&data[..dn], &mut off, &mut out[..bl]);
+
+        kani::assert(session_params_unchanged(&s, &o), "C18.tx.keeps_session_parameters");
+        kani::assert(
+            s.recv_window.buf.c18_mlen() == o.len && (!has_i || s.recv_window.buf.c18_mat(i) == old_i) && s.recv_window.buf_messages_ct == o.ct && s.recv_window.rem_msg_len == o.rem
+                && s.recv_window.ack_seq == o.ack_seq,
+            "C18.tx.keeps_received_data"
+        );
+        match r {
+            Ok(0) => {
+                kani::assert(o.slevel == 0 || (o.slevel == 1 && o.ack_level == 0), "C18.tx.nothing_sent_only_when_window_full");
+                kani::assert(off == off0 && send_unchanged(&s, &o) && recv_counters_unchanged(&s, &o), "C18.tx.nothing_sent_changes_nothing");
+                let q: usize = kani::any();
+                kani::assume(q < TXB);
+                kani::assert(out[q] == out0[q], "C18.tx.nothing_sent_writes_nothing");
+            }
+            Ok(len) => {
+                kani::assert(o.slevel >= 1, "C18.tx.never_sends_when_peer_window_exhausted");
+                kani::assert(len <= bl && len <= o.mtu as usize, "C18.tx.segment_fits_buffer_and_segment_size");
+                // window accounting
+                kani::assert(
+                    s.send_window.level == o.slevel - 1 && s.send_window.window_size == o.sws && s.send_window.last_sent_seq_num == o.last.wrapping_add(1),
+                    "C18.tx.takes_one_send_slot_and_next_seq"
+                );
+                match pending {
+                    Some(_) => kani::assert(
+                        s.recv_window.level == o.rlevel + o.ack_level && s.recv_window.ack_level == 0,
+                        "C18.tx.sent_ack_reopens_recv_window"
+                    ),
+                    None => kani::assert(recv_counters_unchanged(&s, &o), "C18.tx.no_ack_keeps_recv_window"),
+                }
+                kani::assert(wf_counters(&s), "C18.tx.keeps_wf_counters");
+                // the emitted bytes re-decode to the header the contract demands + the chunk
+                let mut it = out[..len].iter();
+                let h = BtpHdr::from((&mut it).copied());
+                kani::assert(h.is_ok(), "C18.tx.segment_redecodes");
+                if let Ok(h) = h {
+                    let hl = len - it.as_slice().len();
+                    let chunk = len - hl;
+                    kani::assert(!h.is_handshake() && h.get_opcode().is_none(), "C18.tx.is_data_segment");
+                    kani::assert(h.get_seq() == Some(o.last.wrapping_add(1)), "C18.tx.seq_consecutive_mod_256");
+                    kani::assert(h.get_ack() == pending, "C18.tx.carries_pending_ack");
+                    if dn == 0 {
+                        kani::assert(chunk == 0 && h.get_msg_len().is_none() && !h.is_continue() && !h.is_final() && off == off0, "C18.tx.standalone_ack_shape");
+                    } else {
+                        kani::assert(off == off0 + chunk, "C18.tx.offset_advances_by_chunk");
+                        kani::assert(chunk > 0 && off <= dn, "C18.tx.makes_progress_within_message");
+                        kani::assert(h.get_msg_len() == if off0 == 0 { Some(dn as u16) } else { None }, "C18.tx.first_segment_announces_length");
+                        kani::assert(h.is_continue() == (off0 > 0), "C18.tx.later_segments_are_continue");
+                        kani::assert(h.is_final() == (off == dn), "C18.tx.final_iff_message_exhausted");
+                        kani::assert(h.is_final() || len == o.mtu as usize, "C18.tx.non_final_segment_is_full");
+                        let j: usize = kani::any();
+                        if j < chunk {
+                            kani::assert(out[hl + j] == data[off0 + j], "C18.tx.chunk_bytes_are_message_bytes");
+                        }
+                    }
+                    kani::cover!(dn > 0 && off0 == 0 && !h.is_final() && dn <= o.mtu as usize, "sender emits non-final first segment of an SDU <= segment size (D13)");
+                    kani::cover!(dn > 0 && off0 > 0 && h.is_final(), "last segment");
+                    kani::cover!(dn > 0 && off0 > 0 && !h.is_final(), "middle segment");
+                    kani::cover!(dn == 0, "stand-alone ack");
+                    kani::cover!(o.last == 255, "sequence wrap");
+                }
+            }
+            Err(ref e) => {
+                kani::assert(e.code() == ErrorCode::NoSpace, "C18.tx.error_only_for_short_buffer");
+                kani::assert(off == off0 && send_unchanged(&s, &o) && recv_counters_unchanged(&s, &o), "C18.tx.error_changes_nothing");
+            }
+        }
+        kani::cover!(matches!(r, Ok(0)) && o.slevel == 1, "last slot reserved for an ack");
+        kani::cover!(matches!(r, Ok(0)) && o.slevel == 0 && pending.is_some() && o.rlevel <= 1, "ack due but send window exhausted (btp.rs:459 assert)");
+        kani::cover!(r.is_err(), "output buffer too small");
+    }
+
+    // TIER: quick
+    // KIND: bounded (message <= 40 bytes, output buffer <= 32 bytes; every segment size >= 20)
+    #[kani::proof]
+    #[kani::unwind(3)]
+    #[kani::stub(embassy_time::Instant::now, fake_now)]
+    #[kani::stub(log::max_level, log_off)]
+    #[kani::stub(crate::utils::storage::RingBuf::push, crate::utils::storage::RingBuf::c18_push_log)]
+    #[kani::stub(crate::utils::storage::RingBuf::len, crate::utils::storage::RingBuf::c18_len_log)]
+    #[kani::stub(crate::utils::storage::RingBuf::pop, crate::utils::storage::RingBuf::c18_pop_model)]
+    #[kani::stub(crate::utils::storage::RingBuf::clear, crate::utils::storage::RingBuf::c18_clear_model)]
+    fn c18_tx_data_step() {
+        check_tx_data(false);
+    }
+
+    /// EXPECTED TO FAIL (D3, session.rs:782): a negotiated segment size below the header length.
+    // TIER: quick
+    // KIND: bounded (message <= 40 bytes)
+    #[kani::proof]
+    #[kani::unwind(3)]
+    #[kani::stub(embassy_time::Instant::now, fake_now)]
+    #[kani::stub(log::max_level, log_off)]
+    #[kani::stub(crate::utils::storage::RingBuf::push, crate::utils::storage::RingBuf::c18_push_log)]
+    #[kani::stub(crate::utils::storage::RingBuf::len, crate::utils::storage::RingBuf::c18_len_log)]
+    #[kani::stub(crate::utils::storage::RingBuf::pop, crate::utils::storage::RingBuf::c18_pop_model)]
+    #[kani::stub(crate::utils::storage::RingBuf::clear, crate::utils::storage::RingBuf::c18_clear_model)]
+    fn c18_d3_tx_data_tiny_mtu() {
+        check_tx_data(true);
+    }
+
+    // ---------------------------------------------------------------------------------------
+    // fetch_message
+    // ---------------------------------------------------------------------------------------
+
+    const OUT: usize = 8;
+
+    fn check_fetch(truncate: bool) {
+        let mut s = any_session();
+        let g = Ghost { b: kani::any() };
+        let jr: usize = kani::any();
+        let k: usize = kani::any();
+        kani::assume(jr <= k && k < 254);
+        let o = snap(&s);
+        let ct = o.ct as usize;
+        // WF: first record; records jr+1 <= k+1 (they become jr <= k); boundaries not before the end of the first record
+        kani::assume(wf_counters(&s) && wf_buf(&s, &g, 0, 0) && wf_buf(&s, &g, jr + 1, k + 1));
+        kani::assume(mono(&g, 1, jr + 1, ct) && mono(&g, 1, jr + 2, ct) && mono(&g, 1, k + 1, ct) && mono(&g, 1, k + 2, ct) && mono(&g, 1, ct, ct));
+        let f = g.b[1]; // end of the first record
+        let out0: [u8; OUT] = kani::any();
+        let mut out = out0;
+        let ol: usize = kani::any();
+        kani::assume(ol <= OUT);
+        if ct > 0 {
+            let sdu = f - 2;
+            if truncate {
+                kani::assume(sdu > ol && sdu - ol <= 3);
+            } else {
+                kani::assume(sdu <= ol);
+            }
+        }
+        let i: usize = kani::any();
+        let has_i = i < o.len;
+        let old_i = if has_i { s.recv_window.buf.c18_mat(i) } else { 0 };
+
+        let r = s.fetch_message(&mut out[..ol]);
+
+        kani::assert(session_params_unchanged(&s, &o) && send_unchanged(&s, &o) && recv_counters_unchanged(&s, &o), "C18.fetch.keeps_windows_and_parameters");
+        kani::assert(s.recv_window.rem_msg_len == o.rem, "C18.fetch.keeps_partial_sdu_bookkeeping");
+        kani::assert(r.is_ok(), "C18.fetch.never_fails_on_wf_state");
+        let nlen = s.recv_window.buf.c18_mlen();
+        if ct == 0 {
+            kani::assert(matches!(r, Ok(0)) && nlen == o.len && s.recv_window.buf_messages_ct == 0, "C18.fetch.nothing_complete_returns_0");
+            kani::assert(!has_i || s.recv_window.buf.c18_mat(i) == old_i, "C18.fetch.nothing_complete_keeps_view");
+        } else if let Ok(got) = r {
+            let sdu = f - 2;
+            kani::assert(got == if sdu < ol { sdu } else { ol }, "C18.fetch.returns_first_sdu_length");
+            kani::assert(s.recv_window.buf_messages_ct == o.ct - 1, "C18.fetch.pops_exactly_one");
+            kani::assert(nlen == o.len - f, "C18.fetch.removes_whole_first_record");
+            // delivered bytes are the first SDU, in order; the rest of `out` is untouched
+            let q: usize = kani::any();
+            kani::assume(q < OUT);
+            if q < got {
+                kani::assert(!has_i || i != 2 + q || out[q] == old_i, "C18.fetch.delivers_first_sdu_bytes");
+            } else {
+                kani::assert(out[q] == out0[q], "C18.fetch.rest_of_out_untouched");
+            }
+            // everything behind the first record is still there, shifted
+            kani::assert(!has_i || i < f || s.recv_window.buf.c18_mat(i - f) == old_i, "C18.fetch.keeps_following_records");
+            // WF with the boundaries shifted by one record (only the entries the instance reads)
+            let nct = ct - 1;
+            let mut g2 = Ghost { b: [0; 256] };
+            g2.b[nct] = g.b[ct] - f;
+            if k + 1 <= nct {
+                g2.b[k + 1] = g.b[k + 2] - f;
+            }
+            if k <= nct {
+                g2.b[k] = g.b[k + 1] - f;
+            }
+            if jr + 1 <= nct {
+                g2.b[jr + 1] = g.b[jr + 2] - f;
+            }
+            if jr <= nct {
+                g2.b[jr] = g.b[jr + 1] - f;
+            }
+            kani::assert(wf_counters(&s), "C18.fetch.keeps_wf_counters");
+            kani::assert(wf_buf(&s, &g2, jr, k), "C18.fetch.keeps_wf_buffer");
+            kani::cover!(k < nct && jr < k, "record instances in range after fetch");
+        }
+        kani::cover!(ct > 1 && matches!(r, Ok(x) if x > 0), "fetch with another SDU queued");
+        kani::cover!(ct == 1 && o.rem > 0, "fetch while a partial SDU follows");
+        kani::cover!(ct == 0, "nothing to fetch");
+        kani::cover!(ct > 0 && s.recv_window.buf.c18_mlen() == 0, "fetch drains the ring");
+    }
+
+    // TIER: quick
+    // KIND: bounded (caller buffer <= 8 bytes, first SDU fits it; all session states, real ring)
+    #[kani::proof]
+    #[kani::unwind(10)]
+    #[kani::stub(embassy_time::Instant::now, fake_now)]
+    #[kani::stub(log::max_level, log_off)]
+    #[kani::stub(crate::utils::storage::RingBuf::push, crate::utils::storage::RingBuf::c18_push_log)]
+    #[kani::stub(crate::utils::storage::RingBuf::len, crate::utils::storage::RingBuf::c18_len_log)]
+    #[kani::stub(crate::utils::storage::RingBuf::pop, crate::utils::storage::RingBuf::c18_pop_model)]
+    #[kani::stub(crate::utils::storage::RingBuf::clear, crate::utils::storage::RingBuf::c18_clear_model)]
+    fn c18_fetch_message() {
+        check_fetch(false);
+    }
+
+    // TIER: quick
+    // KIND: bounded (caller buffer <= 8 bytes, SDU 1..=3 bytes longer than the buffer: truncation path)
+    #[kani::proof]
+    #[kani::unwind(10)]
+    #[kani::stub(embassy_time::Instant::now, fake_now)]
+    #[kani::stub(log::max_level, log_off)]
+    #[kani::stub(crate::utils::storage::RingBuf::push, crate::utils::storage::RingBuf::c18_push_log)]
+    #[kani::stub(crate::utils::storage::RingBuf::len, crate::utils::storage::RingBuf::c18_len_log)]
+    #[kani::stub(crate::utils::storage::RingBuf::pop, crate::utils::storage::RingBuf::c18_pop_model)]
+    #[kani::stub(crate::utils::storage::RingBuf::clear, crate::utils::storage::RingBuf::c18_clear_model)]
+    fn c18_fetch_message_truncating() {
+        check_fetch(true);
+    }
+
+    // ---------------------------------------------------------------------------------------
+    // Handshake
+    // ---------------------------------------------------------------------------------------
+
+    /// The state `Session::new()` / `reset()` leave behind (role and MTU policy arbitrary).
+    fn is_reset(s: &Session) -> bool {
+        addr_eq(&s.address, &BtAddr([0; 6]))
+            && s.version == 0
+            && s.mtu == 0
+            && s.window_size == 0
+            && s.handshake_pending == s.initiator
+            && s.recv_window.buf.c18_mlen() == 0
+            && s.recv_window.buf_messages_ct == 0
+            && s.recv_window.level == 0
+            && s.recv_window.ack_level == 0
+            && s.recv_window.ack_seq == 255
+            && s.recv_window.rem_msg_len == 0
+            && s.send_window.window_size == 0
+            && s.send_window.level == 0
+            && s.send_window.last_sent_seq_num == 255
+    }
+
+    /// A negotiated (segment size, window) pair every later step contract can live with.
+    fn params_ok(mtu: u16, window: u8) -> bool {
+        mtu >= MIN_SEG && mtu <= MAX_SEG && window >= 1 && window as usize * mtu as usize <= RN
+    }
+
+    #[derive(PartialEq, Clone, Copy)]
+    enum HsCase {
+        Main,
+        /// peer proposes an ATT_MTU below the BLE minimum of 23 and we are in relaxed mode   [D3, :627, :820]
+        ReqTinyMtu,
+        /// peer proposes a window of 0                                                      [D16, leads to :137]
+        ReqZeroWindow,
+        /// response whose segment size / window is outside what BTP allows                  [D3, leads to :782]
+        RespBadParams,
+        /// handshake segment received by an already established session                    [D14]
+        Established,
+    }
+
+    fn check_rx_handshake(case: HsCase) {
+        let mut s = any_session();
+        kani::assume(wf_counters(&s));
+        if case == HsCase::Established {
+            kani::assume(!addr_eq(&s.address, &BtAddr([0; 6])) && params_ok(s.mtu, s.window_size));
+        } else {
+            kani::assume(is_reset(&s));
+        }
+        let bytes: [u8; 12] = kani::any();
+        let n: usize = kani::any();
+        kani::assume(n <= 12 && n >= 1 && bytes[0] & 0x40 != 0);
+        let gatt_mtu: Option<u16> = kani::any();
+        // our own GATT layer: an ATT_MTU is never below 23
+        kani::assume(match gatt_mtu {
+            Some(m) => m >= MIN_MTU,
+            None => true,
+        });
+        let addr = BtAddr(kani::any());
+
+        let mut it = bytes[..n].iter();
+        let hdr = BtpHdr::from((&mut it).copied());
+        let hl = n - it.as_slice().len();
+        let pl = n - hl;
+        let shape_ok = match &hdr {
+            Ok(h) => h.is_final() && h.get_opcode() == Some(0x6c) && !h.is_continue() && h.get_ack().is_none(),
+            Err(_) => false,
+        };
+        let responder = !s.initiator;
+        let complete = shape_ok && pl >= if responder { 7 } else { 4 };
+        // fields as laid out on the wire (codec contracts: c18_handshake_req_codec / _resp_codec)
+        let (p_mtu, p_win) = if !complete {
+            (0u16, 0u8)
+        } else if responder {
+            (bytes[hl + 4] as u16 | ((bytes[hl + 5] as u16) << 8), bytes[hl + 6])
+        } else {
+            (bytes[hl + 1] as u16 | ((bytes[hl + 2] as u16) << 8), bytes[hl + 3])
+        };
+        let req_tiny = complete && responder && s.relaxed_mtu_nego && p_mtu != 0 && p_mtu < MIN_MTU;
+        let req_zero_win = complete && responder && p_win == 0;
+        let resp_bad = complete && !responder && !params_ok(p_mtu, p_win);
+        match case {
+            HsCase::Main => kani::assume(!req_tiny && !req_zero_win && !resp_bad),
+            HsCase::ReqTinyMtu => kani::assume(req_tiny && !req_zero_win),
+            HsCase::ReqZeroWindow => kani::assume(req_zero_win && !req_tiny),
+            HsCase::RespBadParams => kani::assume(resp_bad),
+            HsCase::Established => kani::assume(!req_tiny && !req_zero_win && !resp_bad),
+        }
+
+        let o = snap(&s);
+
+        // Main goes through the public entry point (dispatch at session.rs:537-556 included); the
+        // defect cases call the same handshake handlers directly (the data path of `process_rx` is
+        // irrelevant for them and only costs solver time).
+        let r = if case == HsCase::Main {
+            s.process_rx(gatt_mtu, addr, &bytes[..n])
+        } else if s.initiator {
+            s.process_rx_handshake_resp(addr, &bytes[..n])
+        } else {
+            s.process_rx_handshake_req(gatt_mtu, addr, &bytes[..n])
+        };
+
+        match case {
+            HsCase::ReqTinyMtu => kani::assert(r.is_err(), "C18.handshake.req_below_minimum_mtu_refused"),
+            HsCase::ReqZeroWindow => kani::assert(r.is_err(), "C18.handshake.req_zero_window_refused"),
+            HsCase::RespBadParams => kani::assert(r.is_err(), "C18.handshake.resp_out_of_range_parameters_refused"),
+            HsCase::Established => kani::assert(r.is_err() || (s.recv_window.ack_level == 0 && s.recv_window.buf.c18_mlen() == 0), "C18.handshake.rehandshake_refused_or_restarts_clean"),
+            HsCase::Main => {}
+        }
+        kani::assert(r.is_ok() == complete || case != HsCase::Main, "C18.handshake.accepted_iff_well_formed");
+        kani::assert(s.initiator == o.initiator && s.relaxed_mtu_nego == o.relaxed, "C18.handshake.keeps_role_and_policy");
+        if r.is_ok() {
+            kani::assert(params_ok(s.mtu, s.window_size), "C18.handshake.negotiated_parameters_in_range");
+            kani::assert(addr_eq(&s.address, &addr), "C18.handshake.records_peer_address");
+            kani::assert(
+                s.send_window.window_size == s.window_size && s.send_window.level == s.window_size && s.recv_window.level == s.window_size,
+                "C18.handshake.opens_both_windows_fully"
+            );
+            kani::assert(wf_counters(&s), "C18.handshake.establishes_wf_counters");
+            kani::assert(s.handshake_pending == responder, "C18.handshake.responder_owes_a_response");
+            if responder {
+                kani::assert(s.window_size <= p_win, "C18.handshake.window_not_above_peer_offer");
+                kani::assert(s.recv_window.ack_seq == o.ack_seq, "C18.handshake.responder_expects_seq_0_next");
+            } else {
+                kani::assert(s.mtu == p_mtu && s.window_size == p_win, "C18.handshake.initiator_adopts_response");
+                kani::assert(s.recv_window.ack_seq == 0, "C18.handshake.response_counts_as_seq_0");
+            }
+            kani::assert(s.send_window.last_sent_seq_num == o.last && s.recv_window.buf_messages_ct == o.ct && s.recv_window.rem_msg_len == o.rem, "C18.handshake.keeps_sequence_and_buffer");
+        } else {
+            kani::assert(
+                session_params_unchanged(&s, &o) && send_unchanged(&s, &o) && recv_counters_unchanged(&s, &o) && s.recv_window.buf_messages_ct == o.ct && s.recv_window.buf.c18_mlen() == o.len,
+                "C18.handshake.refusal_changes_nothing"
+            );
+        }
+        kani::cover!(r.is_ok() && responder && s.mtu == MIN_SEG, "request, minimum segment size");
+        kani::cover!(r.is_ok() && responder && s.mtu == MAX_SEG, "request, maximum segment size");
+        kani::cover!(r.is_ok() && responder && s.relaxed_mtu_nego && s.mtu > MIN_SEG && s.mtu < MAX_SEG, "request, relaxed negotiation");
+        kani::cover!(r.is_ok() && !responder, "response accepted");
+        kani::cover!(r.is_err() && hdr.is_ok() && !shape_ok, "malformed handshake header");
+        kani::cover!(r.is_err() && shape_ok, "truncated handshake payload");
+    }
+
+    // TIER: quick
+    // KIND: complete
+    #[kani::proof]
+    #[kani::unwind(14)]
+    #[kani::stub(embassy_time::Instant::now, fake_now)]
+    #[kani::stub(log::max_level, log_off)]
+    #[kani::stub(crate::utils::storage::RingBuf::push, crate::utils::storage::RingBuf::c18_push_log)]
+    #[kani::stub(crate::utils::storage::RingBuf::len, crate::utils::storage::RingBuf::c18_len_log)]
+    #[kani::stub(crate::utils::storage::RingBuf::pop, crate::utils::storage::RingBuf::c18_pop_model)]
+    #[kani::stub(crate::utils::storage::RingBuf::clear, crate::utils::storage::RingBuf::c18_clear_model)]
+    fn c18_rx_handshake() {
+        check_rx_handshake(HsCase::Main);
+    }
+
+    /// EXPECTED TO FAIL (D3, session.rs:627 underflow, :820 division by zero, or a segment size below 20).
+    // TIER: quick
+    // KIND: complete
+    #[kani::proof]
+    #[kani::unwind(14)]
+    #[kani::stub(embassy_time::Instant::now, fake_now)]
+    #[kani::stub(log::max_level, log_off)]
+    #[kani::stub(crate::utils::storage::RingBuf::push, crate::utils::storage::RingBuf::c18_push_log)]
+    #[kani::stub(crate::utils::storage::RingBuf::len, crate::utils::storage::RingBuf::c18_len_log)]
+    #[kani::stub(crate::utils::storage::RingBuf::pop, crate::utils::storage::RingBuf::c18_pop_model)]
+    #[kani::stub(crate::utils::storage::RingBuf::clear, crate::utils::storage::RingBuf::c18_clear_model)]
+    fn c18_d3_rx_handshake_req_tiny_mtu() {
+        check_rx_handshake(HsCase::ReqTinyMtu);
+    }
+
+    /// EXPECTED TO FAIL (new candidate D16): a window of 0 is accepted (then session.rs:137 underflows, see c18_d16_tx_handshake_zero_window).
+    // TIER: quick
+    // KIND: complete
+    #[kani::proof]
+    #[kani::unwind(14)]
+    #[kani::stub(embassy_time::Instant::now, fake_now)]
+    #[kani::stub(log::max_level, log_off)]
+    #[kani::stub(crate::utils::storage::RingBuf::push, crate::utils::storage::RingBuf::c18_push_log)]
+    #[kani::stub(crate::utils::storage::RingBuf::len, crate::utils::storage::RingBuf::c18_len_log)]
+    #[kani::stub(crate::utils::storage::RingBuf::pop, crate::utils::storage::RingBuf::c18_pop_model)]
+    #[kani::stub(crate::utils::storage::RingBuf::clear, crate::utils::storage::RingBuf::c18_clear_model)]
+    fn c18_d16_rx_handshake_req_zero_window() {
+        check_rx_handshake(HsCase::ReqZeroWindow);
+    }
+
+    /// EXPECTED TO FAIL (D3: MTU/window of 0 or out of range in a handshake response is adopted verbatim).
+    // TIER: quick
+    // KIND: complete
+    #[kani::proof]
+    #[kani::unwind(14)]
+    #[kani::stub(embassy_time::Instant::now, fake_now)]
+    #[kani::stub(log::max_level, log_off)]
+    #[kani::stub(crate::utils::storage::RingBuf::push, crate::utils::storage::RingBuf::c18_push_log)]
+    #[kani::stub(crate::utils::storage::RingBuf::len, crate::utils::storage::RingBuf::c18_len_log)]
+    #[kani::stub(crate::utils::storage::RingBuf::pop, crate::utils::storage::RingBuf::c18_pop_model)]
+    #[kani::stub(crate::utils::storage::RingBuf::clear, crate::utils::storage::RingBuf::c18_clear_model)]
+    fn c18_d3_rx_handshake_resp_bad_params() {
+        check_rx_handshake(HsCase::RespBadParams);
+    }
+
+    /// EXPECTED TO FAIL (new candidate D14): a handshake segment on an established session re-opens the windows
+    /// without resetting the receive state.
+    // TIER: quick
+    // KIND: complete
+    #[kani::proof]
+    #[kani::unwind(14)]
+    #[kani::stub(embassy_time::Instant::now, fake_now)]
+    #[kani::stub(log::max_level, log_off)]
+    #[kani::stub(crate::utils::storage::RingBuf::push, crate::utils::storage::RingBuf::c18_push_log)]
+    #[kani::stub(crate::utils::storage::RingBuf::len, crate::utils::storage::RingBuf::c18_len_log)]
+    #[kani::stub(crate::utils::storage::RingBuf::pop, crate::utils::storage::RingBuf::c18_pop_model)]
+    #[kani::stub(crate::utils::storage::RingBuf::clear, crate::utils::storage::RingBuf::c18_clear_model)]
+    fn c18_d14_rx_handshake_on_established_session() {
+        check_rx_handshake(HsCase::Established);
+    }
+
+    fn check_tx_handshake(zero_window: bool) {
+        let mut s = any_session();
+        kani::assume(wf_counters(&s));
+        // a responder owes its response only right after `setup`: both windows fully open
+        kani::assume(s.initiator || !s.handshake_pending || s.send_window.level == s.window_size);
+        kani::assume((s.window_size == 0 && s.handshake_pending && !s.initiator) == zero_window);
+        // arbitrary, even nonsensical, GATT MTU (BlueZ hands over whatever it has): the request clamps it
+        let gatt_mtu: Option<u16> = kani::any();
+        let mut out: [u8; 12] = kani::any();
+        let bl: usize = kani::any();
+        kani::assume(bl <= 12);
+        let o = snap(&s);
+
+        let r = s.prep_tx_handshake(gatt_mtu, &mut out[..bl]);
+
+        kani::assert(
+            s.initiator == o.initiator && addr_eq(&s.address, &o.address) && s.version == o.version && s.mtu == o.mtu && s.window_size == o.window_size && s.relaxed_mtu_nego == o.relaxed,
+            "C18.tx_handshake.keeps_session_parameters"
+        );
+        kani::assert(recv_counters_unchanged(&s, &o) && s.recv_window.buf.c18_mlen() == o.len && s.recv_window.buf_messages_ct == o.ct, "C18.tx_handshake.keeps_recv_window");
+        match r {
+            Ok(0) => {
+                kani::assert(!o.handshake_pending, "C18.tx_handshake.silent_only_when_nothing_owed");
+                kani::assert(send_unchanged(&s, &o) && !s.handshake_pending, "C18.tx_handshake.silent_changes_nothing");
+            }
+            Ok(len) => {
+                kani::assert(o.handshake_pending && !s.handshake_pending, "C18.tx_handshake.sent_once");
+                kani::assert(out[0] == 0x65 && out[1] == 0x6c, "C18.tx_handshake.header_is_handshake_mgmt_6c");
+                if o.initiator {
+                    let mtu = out[6] as u16 | ((out[7] as u16) << 8);
+                    let want = match gatt_mtu {
+                        Some(m) => if m > MAX_MTU { MAX_MTU } else if m < MIN_MTU { MIN_MTU } else { m },
+                        None => MIN_MTU,
+                    };
+                    kani::assert(len == 9 && out[2] == 4 && out[3] == 0 && out[4] == 0 && out[5] == 0, "C18.tx_handshake.req_version_4");
+                    kani::assert(mtu == want, "C18.tx_handshake.req_offers_gatt_mtu_clamped");
+                    kani::assert(params_ok(mtu - GATT_HEADER_SIZE as u16, out[8]), "C18.tx_handshake.req_window_fits_ring");
+                    kani::assert(send_unchanged(&s, &o), "C18.tx_handshake.req_takes_no_window_slot");
+                } else {
+                    kani::assert(
+                        len == 6 && out[2] == o.version && (out[3] as u16 | ((out[4] as u16) << 8)) == o.mtu && out[5] == o.window_size,
+                        "C18.tx_handshake.resp_reports_negotiated_parameters"
+                    );
+                    kani::assert(
+                        s.send_window.level == o.slevel - 1 && s.send_window.last_sent_seq_num == o.last.wrapping_add(1) && s.send_window.window_size == o.sws,
+                        "C18.tx_handshake.resp_takes_one_slot_and_a_sequence_number"
+                    );
+                }
+            }
+            Err(ref e) => {
+                kani::assert(e.code() == ErrorCode::NoSpace && o.handshake_pending, "C18.tx_handshake.error_only_for_short_buffer");
+                kani::assert(send_unchanged(&s, &o) && s.handshake_pending, "C18.tx_handshake.error_keeps_response_owed");
+            }
+        }
+        kani::cover!(matches!(r, Ok(9)), "request sent");
+        kani::cover!(matches!(r, Ok(6)), "response sent");
+        kani::cover!(matches!(r, Ok(0)), "nothing owed");
+        kani::cover!(r.is_err(), "buffer too small");
+    }
+
+    // TIER: quick
+    // KIND: complete
+    #[kani::proof]
+    #[kani::stub(embassy_time::Instant::now, fake_now)]
+    #[kani::stub(log::max_level, log_off)]
+    #[kani::stub(crate::utils::storage::RingBuf::push, crate::utils::storage::RingBuf::c18_push_log)]
+    #[kani::stub(crate::utils::storage::RingBuf::len, crate::utils::storage::RingBuf::c18_len_log)]
+    #[kani::stub(crate::utils::storage::RingBuf::pop, crate::utils::storage::RingBuf::c18_pop_model)]
+    #[kani::stub(crate::utils::storage::RingBuf::clear, crate::utils::storage::RingBuf::c18_clear_model)]
+    fn c18_tx_handshake() {
+        check_tx_handshake(false);
+    }
+
+    /// EXPECTED TO FAIL (new candidate D16, session.rs:137): the response to a request with window 0.
+    // TIER: quick
+    // KIND: complete
+    #[kani::proof]
+    #[kani::stub(embassy_time::Instant::now, fake_now)]
+    #[kani::stub(log::max_level, log_off)]
+    #[kani::stub(crate::utils::storage::RingBuf::push, crate::utils::storage::RingBuf::c18_push_log)]
+    #[kani::stub(crate::utils::storage::RingBuf::len, crate::utils::storage::RingBuf::c18_len_log)]
+    #[kani::stub(crate::utils::storage::RingBuf::pop, crate::utils::storage::RingBuf::c18_pop_model)]
+    #[kani::stub(crate::utils::storage::RingBuf::clear, crate::utils::storage::RingBuf::c18_clear_model)]
+    fn c18_d16_tx_handshake_zero_window() {
+        check_tx_handshake(true);
+    }
+}
